@@ -115,6 +115,7 @@ def run_property(prop, tier, seed, replay):
             "assumptions": [], "error": None, "failing_theorem": None}
         if ok and not pc["ok"]:
             obligation = {"file": mod.PROPS, "theorem": pc["failing_theorem"], "coqc": pc["error"]}
+        ctx.obligation = obligation     # a check whose case files import Proofs modules must not rely on them then
         res = mod.run(ctx, verdict, replay=replay, model_ok=(obligation is None or obligation["file"] is None or not obligation["file"].startswith("Model/")))
         # res: dict(coverage=..., unexplained_mismatches=[...], assumptions=[...])
         n_fail_inputs = len(verdict.violations)
